@@ -150,6 +150,9 @@ func init() {
 		c.ruleCodeTable()
 	}, Explanation: "All outcomes of IgnoreSet.Contains enumerated (through the result cell of the range-over-func loops): false for nil/uninitialised; true iff a global token equals (slices.Contains) an element of GetCodesForCheck(code); fast reject only for pos strictly outside [MinPos,MaxPos] and only after the global phase; true iff StartPos <= pos <= EndPos for a marker taken from a range over CodeIndex[element of GetCodesForCheck(code)]; positions are only compared; Add appends every marker, indexes it under each of its codes, maintains MinPos/MaxPos as min/max; GetCodesForCheck yields ALL, category, code from a table built for every category and code."})
 
+	registerProp(&propDef{ID: "C19", Rules: func(c *Ctx) {
+		c.ruleExcerpt()
+	}, Explanation: "Partial. Decided: an excerpt line is lines[i] of the diagnostic's file stored together with the number i+1; the window is filled by a +1 counting loop that is left only at its head (neighbouring lines) and, whenever the file has the reported line, contains it; an empty excerpt is returned only for an unreadable file or a missing line; the formatter prints beside each line its own number, shows truncateString(line, limit, column) and writes the caret line exactly under the line whose number is the diagnostic's line, computed from the same line, limit and column; every result of truncateString is at most limit + 6 bytes long (linear arithmetic over the dominating conditions of each return). NOT decided: that the caret column computed by calculateDisplayColumn stands under the reported character after truncation and with tabs (a relation between the arithmetic of two functions over all lengths and columns); failure-freedom is C10's."})
 	registerProp(&propDef{ID: "C18", Rules: func(c *Ctx) {
 		c.ruleFlagTable()
 		c.ruleParseHelpers()
